@@ -291,7 +291,7 @@ _V1_Z6 = _v1p("^VerifC06_v1_zero_share$", dict(n=[3], Hmax=[3]), dict(n=[3], Hma
 _V1_SIMPLE = _v1p("^Verif(C16_v1simple_main|C01_v1simple_handler)$", dict(H=[1, 2], K=[2]), dict(H=[1, 2, 3], K=[3]))
 _V1_C17RUN = _v1p("^VerifC17_v1_run$", dict(n=[2], H=[2], J=[2], C=[2], K=[3]), dict(n=[2], H=[2, 3], J=[2], C=[2], K=[3]))
 _V1_C17 = [_V1_C17RUN, _v1p("^VerifC17_step_", dict(n=[1, 2, 3]), dict(n=[1, 2, 3, 4]), native=True),
-           _v1p("^VerifC17_loop_commands$", dict(n=[1], C=[2], J=[1], B=[1], K=[1]), dict(n=[1, 2], C=[2], J=[1], B=[1], K=[1]), maxtime=dict(quick=0, thorough=900))]
+           _v1p("^VerifC17_loop_commands$", dict(n=[1], C=[2], J=[1], B=[1], K=[1]), dict(n=[1], C=[2, 3], J=[1], B=[1], K=[1]))]
 
 PROPS["C01"]["groups"] += [_V1_STEP_A, _V1_STEP_B, _V1_PRIOR, _V1_MAIN, _V1_NEW, _V1_SIMPLE] + _V1_C17
 PROPS["C02"]["groups"] += [_V1_STEP_A, _V1_STEP_B, _V1_PRIOR, _V1_MAIN, _V1_SIMPLE] + _V1_C17
